@@ -957,6 +957,8 @@ class Interp:
         if isinstance(obj, Path):
             return Path(obj.parts + (attr,), obj.idx)
         if isinstance(obj, Opaque):
+            if attr == "varValue":
+                return Rat.atom(("varValue", obj.name))
             return Opaque(obj.name + "." + attr)
         if isinstance(obj, Model):
             if attr == "objective":
